@@ -485,7 +485,7 @@ func (c *c02) family() {
 	r, p := c.r, c.p
 	ruFam := r.Rule("C02.family", "every reader-family method of *decode.D (name = contract: width, endian, signedness, kind) reaches, through same-family delegation only, exactly one leaf reader call whose constant width/endian/sign/encoding arguments are the ones its name states", 2400)
 	ruFlow := r.Rule("C02.flow", "every reader-family method returns the value and the error of its single reader call (or .Actual of its scalar), never a value on the error path: non-Try variants reach return only with err==nil proven (failing arm does not return)", 2400)
-	ruNil := r.Rule("C02.nilerr", "a reader-family method dereferences the scalar pointer of a fallible sibling only where err==nil is proven", 400)
+	ruNil := r.Rule("C02.nilerr", "a reader-family method dereferences the scalar pointer of a fallible sibling only where err==nil is proven", 800)
 
 	c.floatW = c.floatWidths()
 	var methods []*ssa.Function
@@ -1029,6 +1029,9 @@ func init() {
 	ctl("c02-nilerr", "C02.nilerr", gen,
 		"func (d *D) FieldU5(name string, sms ...scalar.UintMapper) uint64 {\n	return d.FieldScalarU5(name, sms...).Actual\n}",
 		"func (d *D) FieldU5(name string, sms ...scalar.UintMapper) uint64 {\n	s, _ := d.TryFieldScalarU5(name, sms...)\n	return s.Actual\n}", "tmpl:Field<R>")
+	ctl("c02-nilerr-template", "C02.nilerr", gen,
+		"	s, err := d.TryFieldScalarU5(name, sms...)\n	if err != nil {\n		return 0, err\n	}\n	return s.Actual, err",
+		"	s, err := d.TryFieldScalarU5(name, sms...)\n	return s.Actual, err", "tmpl:TryField<R>")
 	ctl("c02-scalarfn", "C02.scalarfn", gen,
 		"func (d *D) TryFieldScalarSintFn(name string, fn func(d *D) (scalar.Sint, error), sms ...scalar.SintMapper) (*scalar.Sint, error) {\n	v, err := d.TryFieldValue(name, func() (*Value, error) {\n		s, err := fn(d)\n		if err != nil {\n			return &Value{V: &s}, err",
 		"func (d *D) TryFieldScalarSintFn(name string, fn func(d *D) (scalar.Sint, error), sms ...scalar.SintMapper) (*scalar.Sint, error) {\n	v, err := d.TryFieldValue(name, func() (*Value, error) {\n		s, err := fn(d)\n		if err != nil {\n			return &Value{V: &s}, nil", "TryFieldScalarSintFn")
